@@ -216,6 +216,9 @@ def linearizable(ops, initial_last=None, deadline=None):
                 else:
                     if last is not None and ref_equal(last, o.obj) and rec(done | {i}, q, last):
                         return True
+            elif o.kind == "size":
+                if len(q) == o.result and rec(done | {i}, q, last):
+                    return True
             else:
                 if o.result is None:  # get that observed Empty
                     if not q and rec(done | {i}, q, last):
@@ -246,6 +249,18 @@ def run_history(b: Batch, plan, instr: Instr | None, hold_plan=None, ctx=None):
         mine = []
         barrier.wait()
         for v in values:
+            if v in ("?", "W"):
+                # observe the queue length through the public accessor ("W": wait, bounded, until it reads 0)
+                o = Op(tid, "size", v)
+                for _ in range(400 if v == "W" else 1):
+                    o.tcall = clock()
+                    o.result = q.qsize()
+                    o.tret = clock()
+                    if o.result == 0:
+                        break
+                    time.sleep(0)
+                mine.append(o)
+                continue
             o = Op(tid, "put", v)
             o.obj = make(v)
             o.tcall = clock()
@@ -339,6 +354,8 @@ def run_history(b: Batch, plan, instr: Instr | None, hold_plan=None, ctx=None):
             b.add("hold_points_reached", f"{hold_plan['role'][:8]}:{hold_plan['qualname']}:{hold_plan['line']}")
     ndrop = sum(1 for o in puts if o.result == "dropped")
     overlap = _overlap(all_ops)
+    if any(o.kind == "size" and o.result == 0 for o in all_ops):
+        b.count("histories_with_empty_observed")
     if ndrop:
         b.count("histories_with_drop")
     if overlap:
@@ -379,7 +396,11 @@ def instr_for_queue(seed):
     from watchdog.utils.bricks import SkipRepeatsQueue
 
     ins = Instr(seed=seed)
-    ins.watch(SkipRepeatsQueue.put, SkipRepeatsQueue._put, SkipRepeatsQueue._get, SkipRepeatsQueue._init)
+    # every function the class defines itself (whatever the bookkeeping is spread over), plus the inherited entry points
+    import types
+
+    own = [f for f in vars(SkipRepeatsQueue).values() if isinstance(f, types.FunctionType)]
+    ins.watch(*own)
     ins.watch(stdqueue.Queue.put, stdqueue.Queue.get)
     return ins
 
@@ -402,7 +423,12 @@ def rand_plan(r, wide=False):
     vals = VALUES_WIDE if wide else ["A", "B", "A", "A", "Aw1", "Aw2", "C"]
     np_ = r.choice([1, 2, 2, 3, 3])
     prods = [[r.choice(vals) for _ in range(r.randint(1, 3))] for _ in range(np_)]
-    return {"producers": prods, "gets": r.randint(0, 4)}
+    if r.random() < 0.35:
+        # a producer that looks at qsize() between its puts: "taken out" becomes observable before get() has returned
+        k = r.randrange(np_)
+        v = r.choice(["A", "A", "B"])
+        prods[k] = [v, r.choice(["?", "W", "W"]), v] + ([r.choice(["W", "?"]), v] if r.random() < 0.4 else [])
+    return {"producers": prods, "gets": r.randint(0, 4) if r.random() < 0.7 else r.randint(2, 5)}
 
 
 def plan(tier, seed, jobs):
